@@ -66,6 +66,27 @@ def run(ctx):
             continue
         if pi[0] != "ok":
             dist["rejected"] += 1
+            # a structurally well-formed graph (theorem C09_renders_when_wf: non-empty, every key of every node in range, no logical
+            # type on a union, no cycle through unnamed nodes) must be rendered and frozen
+            def kids(x):
+                return [x.items] if x.t == "array" else [x.values] if x.t == "map" else list(x.variants) if x.t == "union" else \
+                       [fk for _, fk in x.fields] if x.t == "record" else []
+            all_in_range = all(k < len(g) for x in g for k in kids(x))
+            if g and all_in_range and not any(x.t == "union" and x.lt for x in g):
+                # unnamed cycle anywhere (also in unreachable nodes)?
+                unnamed = lambda x: x.t in ("array", "map", "union")
+                color = {}
+                def dfs(k):
+                    color[k] = 1
+                    for c2 in kids(g[k]):
+                        if not unnamed(g[c2]):
+                            continue
+                        if color.get(c2) == 1 or (color.get(c2) is None and dfs(c2)):
+                            return True
+                    color[k] = 2
+                    return False
+                if not any(unnamed(g[k]) and color.get(k) is None and dfs(k) for k in range(len(g))):
+                    violations.append({"impl_case": line, "what": "a structurally well-formed built graph was rejected", "impl": ri[:300]})
             continue
         if not valid_names(g, cls["reachable"]) or cls["record_cycle"]:
             dist["ok/not-required (duplicate names or self-containing records)"] += 1
